@@ -4,6 +4,7 @@ PM = "frequenz.sdk.microgrid._power_managing"
 FS = "frequenz.sdk.timeseries.formula_engine._formula_steps"
 RS = "frequenz.sdk.timeseries._resampling"
 BPM = "frequenz.sdk.timeseries.battery_pool._metric_calculator"
+PVM = "frequenz.sdk.microgrid._power_distributing._component_managers._pv_inverter_manager._pv_inverter_manager:PVManager"
 PDA = "frequenz.sdk.microgrid._power_distributing.power_distributing:PowerDistributingActor"
 BMGR = "frequenz.sdk.microgrid._power_distributing._component_managers._battery_manager:BatteryManager"
 ALGO = "frequenz.sdk.microgrid._power_distributing._distribution_algorithm._battery_distribution_algorithm"
@@ -219,5 +220,26 @@ PROPS = {
                      "distribute_power calls; cancellation of a distribution task is outside the property's quantifier",
                      "'eventually applied' is the safety fact 'parked request starts at completion' + the progress assumption "
                      "that every distribution task finishes"],
+    ),
+    "C15": dict(
+        modules=["pd_results"],
+        contracts=[f"{BMGR}._parse_result", f"{BMGR}._set_distributed_power", f"{BMGR}._set_distributed_power#assumed_by_distribute",
+                   f"{BMGR}._distribute_power", f"{PVM}._set_api_power", f"{PVM}._set_api_power#for_caller",
+                   f"{PVM}.distribute_power"],
+        lemmas=[],
+        bounded=[],
+        level="proof",
+        explanation="For every assignment of an outcome (success, out-of-range rejection, client error, unexpected exception, no "
+                    "reply before the timeout) to each set_power call: _parse_result's failed power is the sum of the failed "
+                    "set-points and the failed batteries are those behind the failed inverters; _set_distributed_power issues one "
+                    "call per set-point with that power and cancels unanswered calls; _distribute_power's and the PV manager's "
+                    "results satisfy succeeded + failed + excess = requested with disjoint, exhaustive component sets.",
+        assumptions=[REALS, EXTRACTION,
+                     "asyncio.create_task / wait(timeout) / cancel / gather by the task model (trusted_base); the API client, "
+                     "connection manager, status tracker and results sender are scripted collaborators",
+                     "structural bound: two inverters (batteries {1,2} behind 11, {3} behind 12; PV inverters 21, 22)",
+                     "PVManager.distribute_power's water-filling loop (unrolled over the two inverters) is verified to hand "
+                     "_set_api_power allocations with allocations + remainder = request (its precondition, an obligation at "
+                     "the call site)"],
     ),
 }
